@@ -126,6 +126,11 @@ fn run_seq(ver: &str, seed: u64, nops: usize, dir: PathBuf) {
 				};
 				let id = next_id;
 				next_id += 1;
+				// short values carry only the low bytes of the id: keep them unambiguous
+				let mut len = len;
+				while len > 0 && len < 8 && 256u64.pow(len as u32) <= id {
+					len += 1;
+				}
 				known.insert(id, len);
 				let r = kv.write(p, s, &ks[k], value(id, len));
 				println!("R {} W {} {} {} {} -> {}", i, n, k, id, len, if r.is_ok() { "ok" } else { "err" });
